@@ -328,3 +328,32 @@ Proof.
   unfold Router_get_sequence_number. pose proof (Z.mod_pos_bound (sn + 1) 65535 ltac:(lia)).
   split; [reflexivity|]. split; [lia|]. apply fits_spec. pow2. lia.
 Qed.
+
+(* ---- Common Header as built for a request / for a beacon: mobility flag, hop limit, reserved ----------------------------- *)
+Lemma src_common_for_request nh ht hst tc mobile pl mhl_req :
+  CommonHeader_initialize_with_request nh ht hst tc mobile pl mhl_req
+  = (nh, ht, hst, tc, mobile * 128, pl, (if (ht =? 5) && (hst =? 0) then 1 else mhl_req), 0).
+Proof.
+  unfold CommonHeader_initialize_with_request. rewrite Z.shiftl_mul_pow2 by lia. change (2 ^ 7) with 128.
+  destruct ((ht =? 5) && (hst =? 0)); reflexivity.
+Qed.
+
+(* the mobility flag of an originated packet is the most significant bit of the flags octet, the other bits are zero *)
+Lemma src_mobility_flag_msb nh ht hst tc mobile pl mhl_req : mobile = 0 \/ mobile = 1 ->
+  let '(_, _, _, _, flags, _, _, reserved) := CommonHeader_initialize_with_request nh ht hst tc mobile pl mhl_req in
+  Z.testbit flags 7 = (mobile =? 1) /\ Z.land flags 127 = 0 /\ 0 <= flags < 256 /\ reserved = 0.
+Proof. intros [-> | ->]; vm_compute; repeat split; congruence. Qed.
+
+(* single-hop broadcast carries hop limit 1, every other transport type the requested one *)
+Lemma src_common_mhl nh ht hst tc mobile pl mhl_req :
+  let '(_, _, _, _, _, pl', mhl, _) := CommonHeader_initialize_with_request nh ht hst tc mobile pl mhl_req in
+  pl' = pl /\ mhl = (if (ht =? 5) && (hst =? 0) then 1 else mhl_req).
+Proof. rewrite src_common_for_request. split; reflexivity. Qed.
+
+(* KF-C02-1 on the regenerated function: a beacon of a mobile station carries the flag in bit 0, bit 7 is clear *)
+Lemma src_beacon_flag_refuted :
+  let '(_, _, _, _, flags, _, _, _) := CommonHeader_initialize_beacon 1 in flags = 1 /\ Z.testbit flags 7 = false.
+Proof. vm_compute. split; reflexivity. Qed.
+
+Lemma src_beacon_common mobile : CommonHeader_initialize_beacon mobile = (0, 1, 0, 0, mobile, 0, 1, 0).
+Proof. reflexivity. Qed.
